@@ -87,6 +87,9 @@ func (fr *frame) callWrites(c *ssa.CallCommon) (heaps map[string]bool, all bool,
 		case "io.ReadFull", "sort.Strings":
 			heaps[vc.heapArr("Int")] = true
 		}
+		if strings.Contains(stdName(callee), ").PutUint") {
+			heaps[vc.heapArr("Int")] = true
+		}
 		return heaps, false, false
 	}
 	fc := vc.P.contractFor(callee)
@@ -299,6 +302,11 @@ func (fr *frame) call(c *ssa.CallCommon, instr ssa.Value, st *state, pos string)
 		return fr.havocCall(c, instr, st, "call through function value "+c.Value.Name())
 	}
 	if spec, ok := stdSpecs[stdName(callee)]; ok {
+		if idx, must := mustUse[stdName(callee)]; must && instr != nil && fr.fc != nil && fr.fc.FrameOnly {
+			if !resultUsed(instr, idx) {
+				fr.obligeHere("mustuse["+callee.Name()+"]", "", st, "false", pos)
+			}
+		}
 		return spec(fr, c, args, st, pos)
 	}
 	fc := vc.P.contractFor(callee)
@@ -549,6 +557,9 @@ func (fr *frame) modularCall(fc *FuncContract, callee *ssa.Function, c *ssa.Call
 	}
 	envPost := &Env{vc: vc, fr: fr, pkg: pkgOf(callee), vars: postVars, varAddrs: addrs, st: st, old: pre, next0: pre.next, calleeScope: true, cbs: cbMap(fc)}
 	for _, en := range fc.Ensures {
+		if en.Local {
+			continue
+		}
 		g := envPost.evalBool(en.E)
 		vc.assume(st.reach, g)
 	}
@@ -766,6 +777,9 @@ func (fr *frame) closureAxiom(fn *ssa.Function, cv *closureVal, id string, st *s
 		pre = append(pre, env.evalBool(rq.E))
 	}
 	for _, en := range fc.Ensures {
+		if en.Local {
+			continue
+		}
 		post = append(post, env.evalBool(en.E))
 	}
 	body := vc.popCapture(implies(and(pre...), and(post...)))
@@ -1095,4 +1109,33 @@ func cbMap(fc *FuncContract) map[string]*CallbackSpec {
 		m[cb.Param] = cb
 	}
 	return m
+}
+
+// resultUsed: is result #idx of the call consumed by anything but debug information?
+func resultUsed(v ssa.Value, idx int) bool {
+	refs := v.Referrers()
+	if refs == nil {
+		return true
+	}
+	for _, r := range *refs {
+		switch x := r.(type) {
+		case *ssa.DebugRef:
+			continue
+		case *ssa.Extract:
+			if x.Index == idx {
+				if er := x.Referrers(); er != nil {
+					for _, u := range *er {
+						if _, isDbg := u.(*ssa.DebugRef); !isDbg {
+							return true
+						}
+					}
+				}
+			}
+			continue
+		default:
+			_ = x
+			return true
+		}
+	}
+	return false
 }
